@@ -3,6 +3,10 @@
 use rand::RngCore;
 
 fn random_fill(buffer: &mut [u8]) {
+    #[cfg(passkey_rs_verif)]
+    if verif_hooks::try_fill(buffer) {
+        return;
+    }
     let mut random = rand::thread_rng();
     random.fill_bytes(buffer);
 }
@@ -12,4 +16,79 @@ pub fn random_vec(len: usize) -> Vec<u8> {
     let mut data = vec![0u8; len];
     random_fill(&mut data);
     data
+}
+
+/// Verification-only seam for randomness: lets a deterministic simulator supply the bytes
+/// that would otherwise come from the thread-local generator. Compiled only under
+/// `--cfg passkey_rs_verif`; with the cfg off nothing here exists.
+#[cfg(passkey_rs_verif)]
+pub mod verif_hooks {
+    use std::cell::RefCell;
+
+    use rand::{CryptoRng, RngCore};
+
+    type Source = Box<dyn FnMut(&mut [u8])>;
+
+    thread_local! {
+        static SOURCE: RefCell<Option<Source>> = const { RefCell::new(None) };
+    }
+
+    /// Install a byte source for the current thread, replacing any previous one.
+    pub fn install(source: impl FnMut(&mut [u8]) + 'static) {
+        SOURCE.with(|s| *s.borrow_mut() = Some(Box::new(source)));
+    }
+
+    /// Remove the byte source of the current thread, restoring the default generator.
+    pub fn uninstall() {
+        SOURCE.with(|s| *s.borrow_mut() = None);
+    }
+
+    /// Fill `buffer` from the installed source. Returns `false` if none is installed.
+    pub fn try_fill(buffer: &mut [u8]) -> bool {
+        SOURCE.with(|s| match s.borrow_mut().as_mut() {
+            Some(source) => {
+                source(buffer);
+                true
+            }
+            None => false,
+        })
+    }
+
+    /// Adaptor that serves random bytes from the installed source when there is one and from
+    /// the wrapped generator otherwise.
+    pub struct HookedRng<R>(R);
+
+    impl<R> HookedRng<R> {
+        /// Wrap a generator.
+        pub fn new(inner: R) -> Self {
+            Self(inner)
+        }
+    }
+
+    impl<R: RngCore> RngCore for HookedRng<R> {
+        fn next_u32(&mut self) -> u32 {
+            let mut bytes = [0; 4];
+            self.fill_bytes(&mut bytes);
+            u32::from_le_bytes(bytes)
+        }
+
+        fn next_u64(&mut self) -> u64 {
+            let mut bytes = [0; 8];
+            self.fill_bytes(&mut bytes);
+            u64::from_le_bytes(bytes)
+        }
+
+        fn fill_bytes(&mut self, dest: &mut [u8]) {
+            if !try_fill(dest) {
+                self.0.fill_bytes(dest);
+            }
+        }
+
+        fn try_fill_bytes(&mut self, dest: &mut [u8]) -> Result<(), rand::Error> {
+            self.fill_bytes(dest);
+            Ok(())
+        }
+    }
+
+    impl<R: CryptoRng> CryptoRng for HookedRng<R> {}
 }
